@@ -493,7 +493,7 @@ func runC08(c *Ctx) {
 		add([]mKeyDesc{signing, u}, "signing | use-omitted:"+ch.class)
 		add([]mKeyDesc{u, goodUnspec}, "use-omitted:"+ch.class+" | use-omitted:rsa-c")
 	}
-	n := 250
+	n := 200
 	if c.Thorough() {
 		n = 5000
 	}
